@@ -369,8 +369,8 @@ REGISTRY['Q1'].doc = (_q1.__doc__ or '').strip()
 
 # ================================================================================================ watcher
 @harness('Q5', targets=['kopf._core.reactor.queueing.watcher', 'kopf._core.reactor.queueing.get_uid'],
-         props=['C01', 'C20', 'C03', 'C13', 'C07', 'C10', 'C19'],
-         prop_clauses={'C13': ['pressure_follows_put'], 'C07': ['pressure_follows_put'], 'C10': ['pressure_follows_put'], 'C19': ['one_put_per_event', 'put_into_live_stream', 'no_put_for_bookmarks', 'keyed_by_uid']},
+         props=['C01', 'C20', 'C03', 'C13', 'C07', 'C10', 'C19', 'C02', 'C14', 'C11'],
+         prop_clauses={'C13': ['pressure_follows_put'], 'C07': ['pressure_follows_put'], 'C10': ['pressure_follows_put'], 'C19': ['one_put_per_event', 'put_into_live_stream', 'no_put_for_bookmarks', 'keyed_by_uid'], 'C02': ['pressure_follows_put'], 'C14': ['pressure_follows_put'], 'C11': ['pressure_follows_put']},
          clauses=['one_put_per_event', 'no_put_for_bookmarks', 'put_into_live_stream', 'create_path_insert_put_spawn',
                   'spawn_only_when_absent', 'keyed_by_uid', 'worker_failure_escalates', 'drains_and_closes_on_exit',
                   'pressure_follows_put'],
